@@ -8,7 +8,9 @@ mod c03;
 mod c04;
 mod c07;
 mod c15;
+mod c16;
 mod c17;
+mod cone;
 mod c18;
 mod refm;
 mod report;
@@ -68,9 +70,12 @@ fn main() {
         "C02" => c01::replay(case, true),
         "C03" => c03::replay(case),
         "C04" => c04::replay(case, &api),
+        "C05" => cone::replay(case, false, &ctx.findings),
+        "C06" => cone::replay(case, true, &ctx.findings),
         "C07" => c07::replay(case, c07::Mode::Moc),
         "C08" => c07::replay(case, c07::Mode::Bmoc),
         "C15" => c15::replay(case),
+        "C16" => c16::replay(case, &ctx.findings),
         "C17" => c17::replay(case),
         "C18" => c18::replay(case),
         _ => { eprintln!("no replay for {}", id); std::process::exit(2); }
@@ -99,9 +104,12 @@ fn main() {
     "C02" => c01::run(&ctx, true),
     "C03" => c03::run(&ctx),
     "C04" => c04::run(&ctx),
+    "C05" => cone::run(&ctx, false),
+    "C06" => cone::run(&ctx, true),
     "C07" => c07::run(&ctx, c07::Mode::Moc),
     "C08" => c07::run(&ctx, c07::Mode::Bmoc),
     "C15" => c15::run(&ctx),
+    "C16" => c16::run(&ctx),
     "C17" => c17::run(&ctx),
     "C18" => c18::run(&ctx),
     _ => { eprintln!("unknown property {}", id); 2 }
